@@ -89,7 +89,13 @@ fn c15_vault() {
     };
     let (fa, va) = (choice(2) == 1, choice(2) == 1);
     let pa = mk(b"version-a", ca, fa, va);
-    let rec = |p: &Scratchpad| Record { key: key.clone(), value: try_serialize_record(p, RecordKind::Scratchpad).unwrap().to_vec(), publisher: None, expires: None };
+    // a holder controls every byte of the record it returns, its key field included: a foreign pad comes either under
+    // the requested key or under the key of its own address (nothing below the client compares that field with the query)
+    let rec = |p: &Scratchpad| {
+        let own_key = NetworkAddress::from_scratchpad_address(*p.address()).to_record_key();
+        let k = if own_key != key && choice(2) == 1 { symrt::cover("foreign_pad_under_its_own_key"); own_key } else { key.clone() };
+        Record { key: k, value: try_serialize_record(p, RecordKind::Scratchpad).unwrap().to_vec(), publisher: None, expires: None }
+    };
     let err_with_record = if split { 0 } else { choice(3) };
     // (authentic?, counter, payload tag) of every version the reply carries
     let mut all_versions: Vec<(bool, Counter, Vec<u8>)> = vec![(!fa && va, ca, b"version-a".to_vec())];
